@@ -20,8 +20,8 @@ ID = 'C13'
 LEVEL = 'proof'
 GEN_TIES = {'Rankscore': 'Props/GenTie_Rankscore.v', 'Convert': 'Props/GenTie_Convert.v', 'ConvertPairs': 'Props/GenTie_ConvertPairs.v'}
 TIE = {'convert.py converters, vote.py subsetters': 'correspondence',
-       'convert.py ApprovalToSimpleVotes / RankedToFirstPreference / RankedToApprovalVotes / ScoreToApprovalVotesThreshold / InvertedSimpleVotes / '
-       'InvertedApprovalVotes / VoteTotals .convert and util.add_dict_to_dict (bodies)':
+       'convert.py ApprovalToSimpleVotes / RankedToFirstPreference / RankedToFirstNPreferences / RankedToPresenceCounts / RankedToApprovalVotes / '
+       'ScoreToApprovalVotesThreshold / InvertedSimpleVotes / InvertedApprovalVotes / VoteTotals .convert and util.add_dict_to_dict (bodies)':
            'translator (tools/py2v.py part 6: the loops as folds, dictionary / set operations as Prelude/PyConv.v primitives, regenerated into Gen/Convert.v on '
            'every run; Props/GenTie_Convert.v proves the generated functions equal - same keys in the same order, equal counts - to dconv img_* / inv_simple / '
            'add_dict / vote_totals of Model/Convert.v, Convert2.v) + correspondence',
